@@ -129,8 +129,8 @@ func runFin(c FinCase, rec *h.Rec) error {
 			round2 = r2[1]
 		}
 		rlk := rlwe.NewRelinearizationKey(params, pick("key"))
-		// GenRelinearizationKey has no error result: it can only combine or panic
-		call = func() error { p.GenRelinearizationKey(r1[0], round2, rlk); return nil }
+		// (before the fix GenRelinearizationKey had no error result: it could only combine or panic)
+		call = func() error { return callErr(p.GenRelinearizationKey, r1[0], round2, rlk) }
 	default:
 		return fmt.Errorf("unknown protocol")
 	}
